@@ -222,6 +222,11 @@ fn is_known(ctx: &Ctx, sig: &str) -> Option<String> {
     ctx.known.iter().find(|f| f.prop == ctx.prop && f.sig == k).map(|f| f.what.clone())
 }
 
+/// development aid: VERIF_PART=<name> runs only that part of a property (never used by the registered commands)
+fn dev_skip(part: &str) -> bool {
+    std::env::var("VERIF_PART").map(|p| p != part).unwrap_or(false)
+}
+
 pub fn write_replay<C: Serialize>(ctx: &Ctx, part: &str, case: &C, sig: &str, msg: &str) -> (Value, String) {
     let case_v = serde_json::to_value(case).unwrap_or(Value::Null);
     let dir = format!("{}/replays", out_dir(ctx));
@@ -239,6 +244,9 @@ where
     F: Fn(&C) -> CaseResult + Sync,
     S: Fn() -> BoxedStrategy<C> + Sync,
 {
+    if dev_skip(part) {
+        return PartReport { name: format!("{part}(skipped:VERIF_PART)"), ..Default::default() };
+    }
     let t = std::time::Instant::now();
     let sh = new_shared();
     let stop = AtomicBool::new(false);
@@ -330,12 +338,17 @@ where
     F: Fn(&C) -> CaseResult + Sync,
     M: Fn(u64) -> C + Sync,
 {
+    if dev_skip(part) {
+        return PartReport { name: format!("{part}(skipped:VERIF_PART)"), ..Default::default() };
+    }
     let t = std::time::Instant::now();
     let sh = new_shared();
     let next = AtomicU64::new(0);
     let first_fail: Mutex<Option<(u64, String, String, C)>> = Mutex::new(None);
     let stop = AtomicBool::new(false);
     let workers = ctx.workers.max(1);
+    // development aid: VERIF_ONLY_INDEX=<i> evaluates only case i of an enumerated part and writes it out as JSON
+    let only: Option<u64> = std::env::var("VERIF_ONLY_INDEX").ok().and_then(|v| v.parse().ok());
     std::thread::scope(|scope| {
         for _ in 0..workers {
             let sh = &sh;
@@ -353,7 +366,13 @@ where
                         if i >= count || stop.load(Ordering::Relaxed) {
                             break;
                         }
+                        if only.map(|o| o != i).unwrap_or(false) {
+                            continue;
+                        }
                         let case = make(i);
+                        if only.is_some() {
+                            let _ = std::fs::write(format!("{}/case-{}-{}-{}.json", out_dir(ctx), ctx.prop, part, i), serde_json::to_string_pretty(&json!({"property": ctx.prop, "part": part, "case": serde_json::to_value(&case).unwrap_or(Value::Null)})).unwrap());
+                        }
                         let r = eval(&case);
                         if let Some((sig, msg)) = &r.violation {
                             if is_known(ctx, sig).is_some() {
